@@ -50,7 +50,7 @@ META = {
             "int | v | List[v]}; 3-level chains = 6 roots x (arguments over {T,U,int} + bare, same Generic variants, own {none, "
             "new, re-annotation int}) x (the same with implicit Generic); V-shapes 4x2 roots (distinct field names) and 2x2 "
             "(same field name), arguments over {T,U,int} + bare; variadic: 6 roots x 15 argument lists x Generic variants x own "
-            "variants, 2 levels, dataclass; kinds dataclass/attrs/attrs with hand-written root __init__ around __attrs_init__/pydantic (NamedTuple/TypedDict single level); leaves of arity 2 "
+            "variants, 2 levels, dataclass; kinds dataclass/attrs/attrs with hand-written root __init__ around __attrs_init__/pydantic (NamedTuple/TypedDict single level), 2-level also attrs whose leaf writes a keyword-only __init__ naming every member; leaves of arity 2 "
             "with 3 of the 16 argument pairs + bare, other leaves with every pool argument + bare"
         ),
         "thorough": (
@@ -67,8 +67,12 @@ META = {
 
 # attrs_init: attrs classes whose roots write their own typed __init__ around __attrs_init__ (the introspection then reads the
 # constructor's signature; a child with a generated __init__ inherits the attribute __attrs_init__ without owning it)
+# attrs_init_leaf: the leaf of a hierarchy of plain attrs classes writes a keyword-only __init__ naming every member with the type
+# it has in the leaf's own variables (the introspection takes all field types from that signature: every field is overridden)
 KINDS_ALL = ("dataclass", "attrs", "attrs_init", "pydantic", "namedtuple", "typeddict")
 KINDS_MULTI = ("dataclass", "attrs", "attrs_init", "pydantic")
+KINDS_TWO_LEVEL = (*KINDS_MULTI, "attrs_init_leaf")
+ATTRS_KINDS = ("attrs", "attrs_init", "attrs_init_leaf")
 
 
 # =============================================================================================== spec construction
@@ -380,7 +384,7 @@ def _enumerate_specs(tier):  # noqa: C901
         for s in chains("M", []):
             yield "single", single, s
         for s in chains("M", ["Mq"]):
-            yield "two_level", multi, s
+            yield "two_level", KINDS_TWO_LEVEL, s
         for s in chains("S", ["Sg", "S"]):
             yield "three_level", multi, s
         for s in v_shapes(4, 2, "S", "S", same_names=False):
@@ -399,7 +403,7 @@ def _enumerate_specs(tier):  # noqa: C901
         for s in chains("M", []):
             yield "single", single, s
         for s in chains("M", ["L"]):
-            yield "two_level", multi, s
+            yield "two_level", KINDS_TWO_LEVEL, s
         for s in chains("M", ["S"]):
             yield "two_level_nt_td", ("namedtuple", "typeddict"), s
         for s in chains("S", ["Mq", "Sg"]):
@@ -538,7 +542,7 @@ def render_source(spec, kind):
             bases.append("Generic[" + ", ".join(render_param(p) for p in generic) + "]")
         if kind == "dataclass":
             lines.append("@dataclass")
-        elif kind in ("attrs", "attrs_init"):
+        elif kind in ATTRS_KINDS:
             lines.append(attrs_deco)
         lines.append(f'class {c["name"]}' + (f'({", ".join(bases)})' if bases else "") + ":")
         if c["fields"]:
@@ -547,8 +551,12 @@ def render_source(spec, kind):
             if kind == "attrs_init" and not c["bases"]:
                 lines.append("    def __init__(self, " + ", ".join(f"{n}: {rend(rg.freeze(t))}" for n, t in c["fields"]) + "):")
                 lines.append("        self.__attrs_init__(" + ", ".join(n for n, _ in c["fields"]) + ")")
-        else:
+        elif not (kind == "attrs_init_leaf" and c is spec["classes"][-1]):
             lines.append("    pass")
+        if kind == "attrs_init_leaf" and c is spec["classes"][-1]:
+            members = sorted(rg.members(spec, c["name"]).items())
+            lines.append("    def __init__(self, *, " + ", ".join(f"{n}: {rg.render(next(iter(ts)))}" for n, ts in members) + "):")
+            lines.append("        self.__attrs_init__(" + ", ".join(f"{n}={n}" for n, _ in members) + ")")
     return "\n".join(lines) + "\n"
 
 
@@ -563,6 +571,13 @@ def kind_allows(spec, kind):
                 if b["args"] is not None and [rg.freeze(a) for a in b["args"]] == [var(p) for p in rg.class_params(spec, b["cls"])]:
                     return ("pydantic returns the unparametrised class for Base[<its own type variables>] (documented limitation: "
                             "parametrized pydantic models do not expose type hints dunders; incorrect resolving in tricky cases)")
+    if kind == "attrs_init_leaf":
+        leaf = classes[-1]
+        if not leaf["bases"]:
+            return "attrs_init_leaf: single class (kind attrs_init covers it)"
+        members = rg.members(spec, leaf["name"])
+        if not members or any(len(ts) != 1 for ts in members.values()):
+            return "attrs_init_leaf: a member without a single annotation in the leaf's variables (nothing to write in the signature)"
     if kind == "namedtuple":
         for c in classes[1:]:
             if len(c["bases"]) != 1:
@@ -624,7 +639,7 @@ def real_params(cls, kind):
 def real_fields(cls, kind):
     if kind == "dataclass":
         return sorted(cls.__dataclass_fields__)
-    if kind in ("attrs", "attrs_init"):
+    if kind in ATTRS_KINDS:
         return sorted(a.name for a in cls.__attrs_attrs__)
     if kind == "pydantic":
         return sorted(cls.model_fields)
@@ -697,7 +712,7 @@ class Evaluator:
         try:
             classes = compile_spec(spec, kind)
         except Exception as e:  # noqa: BLE001
-            if kind in ("dataclass", "attrs", "attrs_init"):
+            if kind in ("dataclass", *ATTRS_KINDS):
                 raise RuntimeError(f"reference legality model incomplete: {describe(spec, kind, None)}: {e!r}") from e
             report.skip(f"{kind} itself refuses to build the class ({exc_name(e)})")
             return
@@ -1133,7 +1148,7 @@ def run(tier):
 
 def SANITY(report, tier):  # noqa: N802
     problems = []
-    for kind in KINDS_ALL:
+    for kind in (*KINDS_ALL, "attrs_init_leaf"):
         # (a kind whose oracle already disagreed - violations recorded - did have its chance to disagree)
         disagreed = any(v["sig"].get("kind") == kind for v in report.violations.values())
         if report.outcomes[f"{kind}:created"] == 0 and not disagreed:
@@ -1157,10 +1172,10 @@ def extra_evidence(report, tier):
     return {
         "specs_enumerated": c["specs_enumerated"],
         "hierarchies_compiled": c["hierarchies"],
-        "hierarchies_by_kind": {k: c[f"hierarchies.{k}"] for k in KINDS_ALL},
+        "hierarchies_by_kind": {k: c[f"hierarchies.{k}"] for k in (*KINDS_ALL, "attrs_init_leaf")},
         "hierarchies_by_family": {k.split(".", 2)[2]: v for k, v in sorted(c.items()) if k.startswith("hierarchies.family.")},
         "parametrisations": c["parametrisations"],
         "loads": c["loads"],
         "data_of_other_substitutions": c["negative_data"],
-        "rejections_by_kind": {k: report.outcomes[f"{k}:other_substitution_rejected"] for k in KINDS_ALL},
+        "rejections_by_kind": {k: report.outcomes[f"{k}:other_substitution_rejected"] for k in (*KINDS_ALL, "attrs_init_leaf")},
     }
